@@ -28,10 +28,10 @@ func c12Embeddings(name string, isFunc bool) []string {
 		}
 		return []string{"${{ " + call + " }}", "${{ " + up + " }}", "${{ true && " + call + " }}", "${{ toJSON(" + call + ") }}",
 			// after another placeholder / another operand that is fine everywhere
-			"${{ 1 }} x ${{ " + call + " }}", "${{ 'a' == 'b' || " + call + " }}"}
+			"${{ 1 }} x ${{ " + call + " }}", "${{ 'a' == 'b' || " + call + " }}", "${{ " + call + " && 'a' || 'b' }}"}
 	}
 	return []string{"${{ " + name + " }}", "${{ " + strings.ToUpper(name) + ".zz }}", "${{ 'a' && " + name + ".yy }}", "${{ toJSON(" + name + ") }}",
-		"${{ 1 }} x ${{ " + name + ".q }}", "${{ format('{0}{1}', 1, " + name + ") }}"}
+		"${{ 1 }} x ${{ " + name + ".q }}", "${{ format('{0}{1}', 1, " + name + ") }}", "${{ " + name + ".c && 'a' || 'b' }}"}
 }
 
 func c12Allowed(avail, name string, isFunc bool) bool {
@@ -115,7 +115,7 @@ func c12Verdict(r *vReport, errs []*Error, rp map[string]any) {
 func TestVerifC12(t *testing.T) {
 	r := vNewReport("C12")
 	defer r.Write(t)
-	r.Extra["rule"] = "every non-exempt scalar value position of the 4 maximal seeds (its table key given by the documentation-derived schema) x 12 contexts + 5 special functions x 6 embeddings (bare, upper-cased, nested in &&, call argument, after another placeholder, second call argument; for if: keys also without the ${{ }} marker), complete product; plus every position with one neighbour replaced by a value of another type / form x {secrets, github, always} x 2 embeddings; oracle = transcription of GitHub's context availability table; class = (table key, name, allowed?); non-trivial = not allowed"
+	r.Extra["rule"] = "every non-exempt scalar value position of the 4 maximal seeds (its table key given by the documentation-derived schema) x 12 contexts + 5 special functions x 6 embeddings (bare, upper-cased, nested in &&, call argument, after another placeholder, second call argument, condition of a && b || c; for if: keys also without the ${{ }} marker), complete product; plus every position with one neighbour replaced by a value of another type / form x {secrets, github, always} x 2 embeddings; oracle = transcription of GitHub's context availability table; class = (table key, name, allowed?); non-trivial = not allowed"
 	r.Extra["assumptions"] = []string{"the availability table is the transcription frozen in lib_catalogue.go (appendix E)", "for the jobs context outside workflow_call outputs 'undefined variable' counts as the report"}
 	if raw := vReplayInput(); raw != nil {
 		var rp map[string]any
@@ -229,7 +229,7 @@ func TestVerifC12(t *testing.T) {
 	r.Bounds["table_keys"] = len(vAvailability)
 	r.Bounds["contexts"] = len(vCtxAll)
 	r.Bounds["special_functions"] = len(vSpecialFuncs)
-	r.Bounds["embeddings"] = 6
+	r.Bounds["embeddings"] = 7
 }
 
 // c12TwoPlaceholders reports whether the mutated scalar of the replay payload holds two placeholders.
